@@ -196,7 +196,7 @@ theorem encode_decode_sequences_coded (ps : List (CodedSeq × Spec.Seq)) (hne : 
     simp only [List.length_append, length_bitsOfLE] at ha4 ⊢; omega)
   -- the bytes
   have hbody : encodeSeqSectionReal (ps.map (·.1)) = .ok out.toList := by
-    simp only [encodeSeqSectionReal, hbl, hbm, hbo]
+    simp only [encodeSeqSectionReal, Gen.llEncMaxLog, Gen.mlEncMaxLog, Gen.ofEncMaxLog, Gen.seqEncAvoidZeroBits, hbl, hbm, hbo]
     show dumpBytes _ = _
     have h168 : (2 * 64 + 2 * 16 + 2 * 4 : Nat) = 168 := by decide
     simp only [h168, hw0, hw1, hw2, hw3, hw4, dumpBytes, hdump]
